@@ -45,6 +45,18 @@ DOCSEQ = [
 ]
 
 
+REGEX_QUERIES = ["$.items[?match(@, $.pattern)]", "$.items[?search(@, $.pattern)]", "$.rows[?match(@.s, @.p)]", "$.rows[?search(@.s, @.p)]", "$.items[?match(@, _.p)]",
+                 "$.items[?search(@, $.pattern) || match(@, 'z+')]", "$.rows[?match(@.s, $.pattern) && search(@.s, @.p)]", "$.items[?@ =~ /a./]", "$..[?match(@, $.pattern)]"]
+REGEX_DOCS = [
+    {"pattern": "a.", "items": ["ab", "zz", "ab"], "rows": [{"s": "ab", "p": "a."}, {"s": "ab", "p": "("}, {"s": "ab", "p": "("}, {"s": "zz", "p": "z+"}]},
+    {"pattern": "(", "items": ["ab", "ab", "ab"], "rows": [{"s": "ab", "p": "[z"}, {"s": "ab", "p": "[z"}, {"s": "ab", "p": "ab"}, {"s": "ab", "p": 1}, {"s": "ab", "p": 1}]},
+    {"pattern": 1, "items": ["ab", "ab", "1"], "rows": [{"s": "b", "p": "b"}, {"s": "b", "p": None}, {"s": "b", "p": None}]},
+    {"pattern": "[z", "items": ["z", "z", "ab"], "rows": []},
+    {"pattern": "z+", "items": ["ab", "zz", "z"], "rows": [{"s": "zz", "p": "z+"}, {"s": "zz", "p": "a{2,1}"}, {"s": "zz", "p": "a{2,1}"}]},
+    {"items": ["ab", "zz"], "rows": [{"s": "ab"}, {"s": "ab"}]},
+]
+
+
 def gen(ctx):
     texts = CACHE_QUERIES + qpool.STANDARD + qpool.EXTENSION + qpool.COMPOUND + COMPOUND_CTX + qpool.generated_texts(ctx.rng, 60 if ctx.tier == "quick" else 1500)
     cases = []
@@ -52,6 +64,12 @@ def gen(ctx):
     for t in texts:
         seq = [ctx.rng.choice(docs) for _ in range(ctx.rng.randint(2, 4))]
         cases.append({"text": t, "docs": seq, "ctx": ctx.rng.choice(qpool.CONTEXTS)})
+    # function arguments taken from the document: a valid pattern in one document, an invalid / non-string one in the next
+    for t in REGEX_QUERIES:
+        for _ in range(3):
+            seq = [ctx.rng.choice(REGEX_DOCS) for _ in range(ctx.rng.randint(2, 4))]
+            cases.append({"text": t, "docs": seq, "ctx": {"p": ctx.rng.choice(["a.", "(", 1, "b"])}})
+        cases.append({"text": t, "docs": [REGEX_DOCS[0], REGEX_DOCS[1], REGEX_DOCS[2], REGEX_DOCS[0]], "ctx": {"p": "("}})
     return cases
 
 
@@ -96,7 +114,7 @@ def evaluate(ctx, cases):
         # fresh reference results per document, from a fresh compilation, caching off
         ref = []
         for d in docs:
-            ref.append(_n(_run(env_off.compile(text), d, extra)))
+            ref.append(_n(_run(jsonpath.JSONPathEnvironment(filter_caching=False).compile(text), d, extra)))   # a fresh environment each time
         # model correspondence
         for d, r in zip(docs, ref):
             m = outs[k]; k += 1
@@ -119,7 +137,7 @@ def evaluate(ctx, cases):
                 bad = False
                 for i in range(len(docs)):
                     for e in seq:
-                        want = _n(_run(env_off.compile(text), copy.deepcopy(docs[i]), e))
+                        want = _n(_run(jsonpath.JSONPathEnvironment(filter_caching=False).compile(text), copy.deepcopy(docs[i]), e))
                         got = _n(_run(q, docs[i], e))
                         ctx.count("context-sequence")
                         if got != want:
